@@ -186,6 +186,28 @@ def K_local_right_qr(ex, st, node, args, kw):
     st.pc.append(z3.And(D >= 1, D <= zint(A.shape[0]) * zint(A.shape[2]), D <= zint(A.shape[1])))
     return (ZArr((A.shape[0], D, A.shape[2])), ZArr((Ap.shape[0], Ap.shape[1], D)), QL(D))
 
+def K_merge_mps(ex, st, node, args, kw):
+    A0, A1 = args
+    oblige(ex, st, node, 'callee-pre', 'merge_mps_tensor_pair: A0.shape[2] == A1.shape[1]', zint(A0.shape[2]) == zint(A1.shape[1]))
+    return ZArr((zint(A0.shape[0]) * zint(A1.shape[0]), A0.shape[1], A1.shape[2]))
+
+def K_merge_mpo(ex, st, node, args, kw):
+    A0, A1 = args
+    oblige(ex, st, node, 'callee-pre', 'merge_mpo_tensor_pair: A0.shape[3] == A1.shape[2]', zint(A0.shape[3]) == zint(A1.shape[2]))
+    return ZArr((zint(A0.shape[0]) * zint(A1.shape[0]), zint(A0.shape[1]) * zint(A1.shape[1]), A0.shape[2], A1.shape[3]))
+
+def K_split(ex, st, node, args, kw):
+    """shape face of mps.split_mps_tensor (T contract + K_svd sizes); the new bond is non-empty for a non-zero tensor"""
+    Am, qd0, qd1, qD = args[:4]
+    q0, q2 = qD
+    for txt, f in [('d0 * d1 == A.shape[0]', zint(qd0.n) * zint(qd1.n) == zint(Am.shape[0])), ('len(qD[0]) == A.shape[1]', zint(q0.n) == zint(Am.shape[1])),
+                   ('len(qD[1]) == A.shape[2]', zint(q2.n) == zint(Am.shape[2]))]:
+        oblige(ex, st, node, 'callee-pre', f'split_mps_tensor: {txt}', f)
+    D = fresh_int('Ds')
+    st.pc.append(z3.And(D >= 1, D <= zint(qd0.n) * zint(Am.shape[1]), D <= zint(qd1.n) * zint(Am.shape[2])))
+    return (ZArr((qd0.n, Am.shape[1], D)), ZArr((qd1.n, D, Am.shape[2])), QL(D))
+
+
 def np_einsum(ex, st, node, args, kw):
     ops = args
     pairs = []; k = 0
@@ -283,7 +305,8 @@ LIB_SH.update({'getitem': s_getitem, 'setitem': s_setitem, 'len': s_len, 'neg': 
 CALLS = {'qr': K_qr, '_local_hamiltonian_step': K_local_ham_step, '_local_bond_step': K_local_bond_step, '_minimize_local_energy': K_local_ham_step,
          'contraction_operator_step_left': K_step_left, 'contraction_operator_step_right': K_step_right,
          'local_orthonormalize_left_qr': K_local_left_qr, 'local_orthonormalize_right_qr': K_local_right_qr,
-         'MPS.orthonormalize': K_orthonormalize, 'compute_right_operator_blocks': K_right_blocks}
+         'MPS.orthonormalize': K_orthonormalize, 'compute_right_operator_blocks': K_right_blocks,
+         'merge_mps_tensor_pair': K_merge_mps, 'merge_mpo_tensor_pair': K_merge_mpo, 'split_mps_tensor': K_split}
 
 
 def shape_loop_handler(invariants, carried, stale):
@@ -379,6 +402,36 @@ def dmrg_singlesite_contract():
     return dict(fn=fn, env=env, pre=c0['pre'] + [], inv=inv, carried=['psi', 'BL', 'BR'], post=lambda ret, e: c0['post'](ret, e)[:2], skip_asserts=c0['skip_asserts'])
 
 
+def twosite_contract(kind):
+    fn = 'evolution.integrate_local_twosite' if kind == 'tdvp' else 'minimization.calculate_ground_state_local_twosite'
+    c0 = tdvp_singlesite_contract()
+    env = dict(c0['env']); H = env['H']; psi0 = env['psi']
+    L = psi0.A.length; d = psi0.attrs['#d']; k = z3.Int('k')
+    Wl, Wr = H.A.dims[2], H.A.dims[3]
+    env['tol_split'] = z3.Real('tol_split')
+    if kind != 'tdvp':
+        env.pop('dt'); env['numsweeps'] = env.pop('numsteps')
+    def br_valid(e, lo):
+        psi = e['psi']; BR = e['BR']
+        return z3.ForAll([k], z3.Implies(z3.And(lo <= k, k < L), blk(BR, k, psi.A.dims[2][k], Wr[k])))
+    def bl_valid(e, hi):
+        psi = e['psi']; BL = e['BL']
+        return z3.ForAll([k], z3.Implies(z3.And(0 <= k, k <= hi), blk(BL, k, psi.A.dims[1][k], Wl[k])))
+    def base(e):
+        return z3.And(wf_shape(e['psi'], d), e['BL'].length == L, e['BR'].length == L, L >= 2, blk(e['BL'], 0, 1, 1))
+    outer = 'for n in range(numsteps)' if kind == 'tdvp' else 'for n in range(numsweeps)'
+    inv = {'for i in range(len(BR))': lambda e, c, i: z3.And(base(e), br_valid(e, 0), bl_valid(e, 0)),
+           outer: lambda e, c, i: z3.And(base(e), br_valid(e, 0), bl_valid(e, 0)),
+           'for i in range(L - 2)': lambda e, c, i: z3.And(base(e), br_valid(e, c + 1), bl_valid(e, c))}
+    if kind == 'tdvp':
+        inv['for i in reversed(range(L - 2))'] = lambda e, c, i: z3.And(base(e), br_valid(e, L - 2 - c), bl_valid(e, L - 2 - c))
+    else:
+        inv['for i in reversed(range(L - 1))'] = lambda e, c, i: z3.And(base(e), br_valid(e, L - 1 - c), bl_valid(e, L - 2 - c))
+    return dict(fn=fn, env=env, pre=c0['pre'] + [L >= 2], inv=inv, carried=['psi', 'BL', 'BR'],
+                post=lambda ret, e: [('shape_part_of_class_invariant', wf_shape(e['psi'], d))], skip_asserts=c0['skip_asserts'],
+                assume_asserts=['L >= 2'])
+
+
 def verify_one(spec):
     from . import smt
     smt.EXTERNAL[0] = True
@@ -387,7 +440,7 @@ def verify_one(spec):
     solver = Solver()
     stale = []
     ex = Exec(lib=dict(LIB_SH), calls=CALLS, mode='Z', solver=solver, loop_handler=shape_loop_handler(spec['inv'], spec['carried'], stale), fname=fn)
-    ex.assume_asserts = set()
+    ex.assume_asserts = set(spec.get('assume_asserts', ()))
     st = State(dict(spec['env']), list(spec['pre']))
     key = fn.split('.')[-1]
     try:
@@ -423,7 +476,8 @@ def verify_one(spec):
     return out
 
 
-CONTRACTS = {'tdvp1': (tdvp_singlesite_contract, ('C08', 'C02', 'C09')), 'dmrg1': (dmrg_singlesite_contract, ('C10', 'C02'))}
+CONTRACTS = {'tdvp1': (tdvp_singlesite_contract, ('C08', 'C02', 'C09')), 'dmrg1': (dmrg_singlesite_contract, ('C10', 'C02')),
+             'tdvp2': (lambda: twosite_contract('tdvp'), ('C08', 'C02', 'C09')), 'dmrg2': (lambda: twosite_contract('dmrg'), ('C10', 'C02'))}
 
 
 def verify(prop, only=None):
